@@ -105,7 +105,7 @@ class LRUAsyncCallable(Protocol[AC]):
         """Evict all call argument patterns and their results from the cache"""
         ...
 
-    def cache_discard(self, *args: Any, **kwargs: Any) -> None:
+    def cache_discard(self, /, *args: Any, **kwargs: Any) -> None:
         """
         Evict the call argument pattern and its result from the cache
 
@@ -152,7 +152,7 @@ class LRUAsyncBoundCallable(Generic[S, P, R]):  # type: ignore[reportInvalidType
     ) -> LRUAsyncBoundCallable[S2, P, R]:
         return LRUAsyncBoundCallable(self._lru, instance)
 
-    def __call__(self, *args, **kwargs):  # type: ignore
+    def __call__(self, /, *args, **kwargs):  # type: ignore
         return self._lru(self.__self__, *args, **kwargs)
 
     def cache_parameters(self) -> CacheParameters:
@@ -164,7 +164,7 @@ class LRUAsyncBoundCallable(Generic[S, P, R]):  # type: ignore[reportInvalidType
     def cache_clear(self) -> None:
         return self._lru.cache_clear()
 
-    def cache_discard(self, *args: Any, **kwargs: Any) -> None:
+    def cache_discard(self, /, *args: Any, **kwargs: Any) -> None:
         return self._lru.cache_discard(self.__self__, *args, **kwargs)
 
     def __repr__(self) -> str:
@@ -330,7 +330,7 @@ class UncachedLRUAsyncCallable(LRUAsyncCallable[AC]):
         self.__misses = 0
         self.__typed = typed
 
-    async def __call__(self, *args: Any, **kwargs: Any) -> Any:  # type: ignore[reportIncompatibleVariableOverride]
+    async def __call__(self, /, *args: Any, **kwargs: Any) -> Any:  # type: ignore[reportIncompatibleVariableOverride]
         self.__misses += 1
         return await self.__wrapped__(*args, **kwargs)
 
@@ -343,7 +343,7 @@ class UncachedLRUAsyncCallable(LRUAsyncCallable[AC]):
     def cache_clear(self) -> None:
         self.__misses = 0
 
-    def cache_discard(self, *args: Any, **kwargs: Any) -> None:
+    def cache_discard(self, /, *args: Any, **kwargs: Any) -> None:
         return
 
 
@@ -369,7 +369,7 @@ class MemoizedLRUAsyncCallable(LRUAsyncCallable[AC]):
         self.__typed = typed
         self.__cache: Dict[Union[CallKey, int, str], Any] = {}
 
-    async def __call__(self, *args: Any, **kwargs: Any) -> Any:  # type: ignore[reportIncompatibleVariableOverride]
+    async def __call__(self, /, *args: Any, **kwargs: Any) -> Any:  # type: ignore[reportIncompatibleVariableOverride]
         key = CallKey.from_call(args, kwargs, typed=self.__typed)
         try:
             result = self.__cache[key]
@@ -396,7 +396,7 @@ class MemoizedLRUAsyncCallable(LRUAsyncCallable[AC]):
         self.__misses = 0
         self.__cache.clear()
 
-    def cache_discard(self, *args: Any, **kwargs: Any) -> None:
+    def cache_discard(self, /, *args: Any, **kwargs: Any) -> None:
         self.__cache.pop(CallKey.from_call(args, kwargs, typed=self.__typed), None)
 
 
@@ -424,7 +424,7 @@ class CachedLRUAsyncCallable(LRUAsyncCallable[AC]):
         self.__maxsize = maxsize
         self.__cache: OrderedDict[Union[int, str, CallKey], Any] = OrderedDict()
 
-    async def __call__(self, *args: Any, **kwargs: Any) -> Any:  # type: ignore[reportIncompatibleVariableOverride]
+    async def __call__(self, /, *args: Any, **kwargs: Any) -> Any:  # type: ignore[reportIncompatibleVariableOverride]
         key = CallKey.from_call(args, kwargs, typed=self.__typed)
         try:
             result = self.__cache[key]
@@ -461,5 +461,5 @@ class CachedLRUAsyncCallable(LRUAsyncCallable[AC]):
         self.__misses = 0
         self.__cache.clear()
 
-    def cache_discard(self, *args: Any, **kwargs: Any) -> None:
+    def cache_discard(self, /, *args: Any, **kwargs: Any) -> None:
         self.__cache.pop(CallKey.from_call(args, kwargs, typed=self.__typed), None)
